@@ -12,14 +12,14 @@
 EXTENDS Integers, Sequences, FiniteSets, TLC, Json, IOUtils
 Rec == ndJsonDeserialize(IOEnv.TRACE)
 VARIABLES l, s
-Init0 == [run |-> -1, capture |-> FALSE, scr |-> 0, timeout |-> 0, fwdarp |-> FALSE, arrived |-> 0, first |-> -100, firstT |-> 0, returns |-> 0,
+Init0 == [run |-> -1, untimed |-> FALSE, capture |-> FALSE, scr |-> 0, timeout |-> 0, fwdarp |-> FALSE, arrived |-> 0, first |-> -100, firstT |-> 0, returns |-> 0,
           bad |-> {}, nbad |-> 0, runs |-> 0, events |-> 0]
 Viol(t, e, clause) ==
   IF Cardinality({x \in t.bad : x.clause = clause}) >= 3 THEN [t EXCEPT !.nbad = @ + 1]
   ELSE [t EXCEPT !.bad = @ \cup {[run |-> t.run, i |-> e.i, clause |-> clause]}, !.nbad = @ + 1]
 Step(t, e) ==
   LET t0 == [t EXCEPT !.events = @ + 1] IN
-  CASE e.ev = "reset" -> [t0 EXCEPT !.run = e.run, !.runs = @ + 1, !.scr = e.scr, !.timeout = e.timeout, !.fwdarp = e.fwdarp, !.capture = e.capture,
+  CASE e.ev = "reset" -> [t0 EXCEPT !.run = e.run, !.runs = @ + 1, !.scr = e.scr, !.timeout = e.timeout, !.untimed = e.untimed, !.fwdarp = e.fwdarp, !.capture = e.capture,
                                    !.arrived = 0, !.first = -100, !.firstT = 0, !.returns = 0]
     [] e.ev = "arrive" -> [t0 EXCEPT !.arrived = @ + 1]
     [] e.ev \in {"wire", "demux"} ->
@@ -27,16 +27,18 @@ Step(t, e) ==
          ELSE Viol(t0, e, IF t.fwdarp
                           THEN "[K6] a frame appeared before every protocol had finished its initialisation (Forward opens its session, and ARP resolves, before the barrier)"
                           ELSE "a frame appeared on a network / reached an application before every protocol had finished its initialisation")
-    [] e.ev = "shutreq" -> IF t.first = -100 /\ e.t < t.timeout THEN [t0 EXCEPT !.first = e.status, !.firstT = e.t] ELSE t0
+    [] e.ev = "shutreq" -> IF t.first = -100 /\ (t.untimed \/ e.t < t.timeout) THEN [t0 EXCEPT !.first = e.status, !.firstT = e.t] ELSE t0
     [] e.ev = "returned" ->
          LET t1 == IF t.returns > 0 THEN Viol(t0, e, "the run returned more than once") ELSE t0
              \* (a built-in Capture application requests status 7 when its message arrives; that request is not logged)
              \* every run of the driver has a timeout: its timer task holds the shutdown channel open, so a run in which nobody
              \* asked ends with TimedOut (never with the Exited of a channel that closed), even with no machine at all
-             want == (IF t.first # -100 THEN {t.first} ELSE {-2}) \cup (IF t.capture THEN {7} ELSE {})
+             \* a run WITHOUT a timeout in which every protocol finishes and drops its handle: the first request, else Exited
+             want == IF t.untimed THEN (IF t.first # -100 THEN {t.first} ELSE {-1})
+                     ELSE (IF t.first # -100 THEN {t.first} ELSE {-2}) \cup (IF t.capture THEN {7} ELSE {})
              t2 == IF e.status \in want THEN t1
                    ELSE Viol(t1, e, "the run did not return the status of the first shutdown request made before the timeout (or TimedOut)")
-             t3 == IF e.t <= t.timeout + 1000000 THEN t2 ELSE Viol(t2, e, "the run returned later than one second after its timeout")
+             t3 == IF t.untimed \/ e.t <= t.timeout + 1000000 THEN t2 ELSE Viol(t2, e, "the run returned later than one second after its timeout")
              \* a request made before the timeout ends the run then, not at the timeout
              t4 == IF t.first # -100 /\ e.t > t.firstT + 1000000 /\ ~t.capture THEN Viol(t3, e, "the run ignored a shutdown request for more than a second") ELSE t3
          IN [t4 EXCEPT !.returns = @ + 1]
